@@ -5,7 +5,7 @@
 From Coq Require Import ZArith List Bool.
 From AV Require Import Base.PyList Base.PyFloat Tok.Model Tok.Spec Tok.OnlineSpec
   Audio.Region IO.Source IO.Reader Audio.Pcm IO.Wav Audio.Energy Split.Duration Cli.Format
-  Conc.Workers Split.Split Extract.Tree.
+  Conc.Workers Conc.Monitor Split.Split Extract.Tree.
 Import ListNotations.
 Open Scope Z_scope.
 
@@ -234,6 +234,81 @@ Definition api_split_custom (a : tree) : tree :=
 (* 72: [tF, rate] -> option round(t*rate)  (max_read in samples) *)
 Definition api_round_mul (a : tree) : tree := eOpt eZ (py_round (fmul (tF (arg a 0)) (of_Z (tZ (arg a 1))))).
 
+(* ------------------------------------------------------------ workers (trace monitor) *)
+
+Definition dEvent (t : tree) : event (A:=Z) :=
+  match tZ (arg t 0) with
+  | 0 => ETokPoll (tB (arg t 1))
+  | 1 => ETokRead (tOpt tZ (arg t 1))
+  | 2 => ETokPutObs (tN (arg t 1)) (tZ (arg t 2))
+  | 3 => ETokPutSavStop
+  | 4 => ETokJoinSav
+  | 5 => ETokExit
+  | 6 => EObsGet (tN (arg t 1)) (tZ (arg t 2))
+  | 7 => EObsExit (tN (arg t 1))
+  | 8 => ESavGet (tZ (arg t 1))
+  | 9 => ESavDrain (tZ (arg t 1))
+  | 10 => ESavExit
+  | 11 => EMainStop (tB (arg t 1))
+  | 12 => EMainJoinTok
+  | 13 => EMainPutObs (tN (arg t 1))
+  | 14 => EMainJoinObs (tN (arg t 1))
+  | 15 => EMainPutSavStop
+  | 16 => EMainJoinSav
+  | _ => EMainDone
+  end.
+
+Definition eDet (m : Z * token Z) : tree := Node [Leaf (fst m); Leaf (tok_start (snd m)); Leaf (tok_end (snd m))].
+Definition eChoice (ch : choice) : tree :=
+  match ch with
+  | CTok => Node [Leaf 0]
+  | CObs j t => Node [Leaf 1; Leaf (Z.of_nat j); eB t]
+  | CSav t => Node [Leaf 2; eB t]
+  | CMain s => Node [Leaf 3; eB s]
+  end.
+Definition tpc_code (p : tpc Z) : Z :=
+  match p with TPoll => 0 | TRead => 1 | TNotify _ _ _ => 2 | TStopNotify _ => 3 | TClose => 4 | TJoinSav => 5 | TExit => 6 end.
+Definition mpc_code (p : mpc) : Z :=
+  match p with MIdle => 0 | MJoinTok => 1 | MStopObs _ => 2 | MJoinObs _ => 3 | MCloseReader => 4 | MJoinSav => 5 | MDone => 6 end.
+
+Definition eSys (y : sys Z) : tree :=
+  Node [Leaf (tpc_code (tpcv y)); Leaf (mpc_code (mpcv y)); Leaf (nread y);
+        eL eDet (dets y);
+        eL (fun o : obs Z => Node [eL eDet (processed o); eB (match opcv o with OExit => true | ORun => false end);
+                                    Leaf (zlen (oinbox o))]) (observers y);
+        eOpt (fun v : saver Z => Node [eZs (written v); eB (closed_file v);
+                                       eB (match spcv v with SExit => true | _ => false end); eZs (scache v)]) (sav y);
+        eB (all_workers_exited y); eB (all_exited y)].
+
+(* 80: [mn mx ms imin ims mode verdicts bszs nobs with_saver cache_size events]
+       -> result [accepted, sys, schedule] *)
+Definition api_monitor (a : tree) : tree :=
+  eRes (fun r : nat * sys Z * list choice =>
+          let '(n, y, l) := r in Node [Leaf (Z.of_nat n); eSys y; eL eChoice l])
+       (with_cfg a (fun c =>
+          let bszs := tZs (arg a 7) in
+          let bsz := fun i : Z => nth (Z.to_nat i) bszs 0 in
+          Ok (monitor c bsz (tZ (arg a 10)) Z.eqb
+                      (init_sys (number (tBs (arg a 6))) (tN (arg a 8)) (tB (arg a 9)) init_st)
+                      (map dEvent (tL (arg a 11)))))).
+
+(* 81: [cfg..., verdicts, bszs, nobs, with_saver, cache_size, schedule(as printed by 80)] -> sys (exec of a schedule) *)
+Definition dChoice (t : tree) : choice :=
+  match tZ (arg t 0) with
+  | 0 => CTok
+  | 1 => CObs (tN (arg t 1)) (tB (arg t 2))
+  | 2 => CSav (tB (arg t 1))
+  | _ => CMain (tB (arg t 1))
+  end.
+Definition api_exec (a : tree) : tree :=
+  eRes eSys
+       (with_cfg a (fun c =>
+          let bszs := tZs (arg a 7) in
+          let bsz := fun i : Z => nth (Z.to_nat i) bszs 0 in
+          Ok (exec c bsz (tZ (arg a 10))
+                   (init_sys (number (tBs (arg a 6))) (tN (arg a 8)) (tB (arg a 9)) init_st)
+                   (map dChoice (tL (arg a 11)))))).
+
 Definition dispatch (op : Z) (a : tree) : tree :=
   match op with
   | 1 => api_tokenize a
@@ -266,5 +341,7 @@ Definition dispatch (op : Z) (a : tree) : tree :=
   | 70 => api_split_energy a
   | 71 => api_split_custom a
   | 72 => api_round_mul a
+  | 80 => api_monitor a
+  | 81 => api_exec a
   | _ => Node [Leaf 1; Leaf (-1)]
   end.
